@@ -1,8 +1,13 @@
 package props
 
 import (
+	"encoding/base64"
 	"fmt"
+	"os"
+	"os/exec"
+	"strconv"
 	"strings"
+	"sync/atomic"
 	"unicode/utf8"
 
 	"verif/internal/core"
@@ -10,10 +15,80 @@ import (
 )
 
 func init() {
-	register(&Check{ID: "C15", QuickS: 200, ThorS: 1800, Run: runC15, Replay: replayC15})
+	register(&Check{ID: "C15", QuickS: 200, ThorS: 1800, Run: runC15, Replay: replayC15, Workers: c15Worker})
 }
 
-var c15Texts = []string{"a", "A", "a-1", "a 1", "a-1-1", "", "あ", "!", "1", "-", "_", "heading", "heading-1", "a_1", "Heading 1"}
+// c15Worker: vcheck C15 --worker ids <cfg> <base64 document>. Converts the one document on a new instance in a new
+// process (nothing has been converted before) and prints the heading ids, one quoted string per line.
+func c15Worker(args []string) int {
+	if len(args) < 3 || args[0] != "ids" {
+		return 2
+	}
+	doc, err := base64.StdEncoding.DecodeString(args[2])
+	if err != nil {
+		return 2
+	}
+	cv := core.NewConv(core.MustCfg(args[1]))
+	out, cerr, pan := cv.Convert(doc)
+	if cerr != nil || pan != nil {
+		fmt.Println("FAIL")
+		return 0
+	}
+	ids, _, lerr := headingIDs(out)
+	if lerr != nil {
+		fmt.Println("FAIL")
+		return 0
+	}
+	for _, id := range ids {
+		fmt.Println(strconv.Quote(id))
+	}
+	return 0
+}
+
+var c15PristineCalls atomic.Int64
+
+// c15Pristine returns the ids the document gets in a process that has converted nothing else.
+func c15Pristine(cfg core.Cfg, doc []byte) (ids []string, ok bool) {
+	exe, _ := os.Executable()
+	out, err := exec.Command(exe, "C15", "--worker", "ids", cfg.String(), base64.StdEncoding.EncodeToString(doc)).Output()
+	if err != nil || strings.HasPrefix(string(out), "FAIL") {
+		return nil, false
+	}
+	for _, ln := range strings.Split(strings.TrimSpace(string(out)), "\n") {
+		if ln == "" {
+			continue
+		}
+		id, err := strconv.Unquote(ln)
+		if err != nil {
+			return nil, false
+		}
+		ids = append(ids, id)
+	}
+	return ids, true
+}
+
+// c15ModelMismatch is called when the ids differ from the reference model's prediction. The statement does not fix the
+// id algorithm, only that ids depend on the document alone; so the verdict comes from a differential partner: the same
+// document converted alone in a new process. Different ids there = history dependence (violation); same ids = the
+// implementation's algorithm is not the model's (not a violation; counted and reported in the evidence as model drift).
+func c15ModelMismatch(s *core.Sub, cfg core.Cfg, doc []byte, ids, want []string, tag string) {
+	if c15PristineCalls.Add(1) > 200 {
+		s.Count("model-mismatch-not-confirmed(cap of 200 pristine-process runs reached)")
+		return
+	}
+	alone, ok := c15Pristine(cfg, doc)
+	if !ok {
+		s.Count("model-mismatch-pristine-run-failed")
+		return
+	}
+	if strings.Join(alone, "\x00") != strings.Join(ids, "\x00") {
+		s.Violate("ids-depend-on-history"+tag, cfg.String(), doc, nil, fmt.Sprintf("ids %q here, but %q when the same document is converted alone in a new process (reference model %q)", ids, alone, want), strings.Join(alone, " "), strings.Join(ids, " "))
+		return
+	}
+	s.Count("model-drift: ids differ from the reference model but are the same in a pristine process (not a violation)")
+}
+
+var c15Texts = []string{"a", "A", "a-1", "a 1", "a-1-1", "", "あ", "!", "1", "-", "_", "heading", "heading-1", "a_1", "Heading 1", "a !", "! a"}
 
 type c15Head struct {
 	text string
@@ -142,7 +217,7 @@ func runC15(r *core.Run) {
 			idx[i] = string([]byte{byte(i)})
 		}
 		nn := n
-		wordsSub(r, "structured/"+cn, fmt.Sprintf("every sequence of ≤%d headings from %d (text,form) pairs (texts %q × {ATX, Setext, ATX in quote, ATX in list item}), joined by blank lines, converted on a long-lived instance under %s, each conversion preceded by a conversion on a second attribute-enabled instance of headings carrying the predicted ids explicitly; ids from the tokenized output must equal the reference model (slug + first free numeric suffix), be non-empty and pairwise distinct; distinct = id-sequence digest", nn, len(heads), c15Texts, cn),
+		wordsSub(r, "structured/"+cn, fmt.Sprintf("every sequence of ≤%d headings from %d (text,form) pairs (texts %q × {ATX, Setext, ATX in quote, ATX in list item}), joined by blank lines, converted on a long-lived instance under %s, each conversion preceded by a conversion on a second attribute-enabled instance of headings carrying the predicted ids explicitly; ids from the tokenized output must be non-empty and pairwise distinct; where they differ from the reference model (slug + first free numeric suffix) the same document is converted alone in a new process and must get the same ids there (ids depend on the document only); distinct = id-sequence digest", nn, len(heads), c15Texts, cn),
 			idx, nn, func(s *core.Sub, w int) func([]byte) uint64 {
 				cv := core.NewConv(cfg)
 				// history clause across instances: a second, attribute-enabled instance converts, right before each
@@ -185,7 +260,7 @@ func runC15(r *core.Run) {
 					}
 					want := idsModel(texts)
 					if strings.Join(ids, "\x00") != strings.Join(want, "\x00") {
-						s.Violate("ids-differ-from-model", cfg.String(), doc, nil, fmt.Sprintf("ids %q, reference model %q", ids, want), strings.Join(want, " "), strings.Join(ids, " "))
+						c15ModelMismatch(s, cfg, doc, ids, want, "")
 					}
 					return core.Hash([]byte(strings.Join(ids, ",")))
 				}
@@ -230,7 +305,7 @@ func runC15(r *core.Run) {
 							s.Violate(p+":long-heading", cfg.String(), []byte(doc), nil, fmt.Sprintf("L=%d heading ids %q", l, ids), "every heading has a distinct non-empty id", "")
 						}
 						if want := idsModel(texts); len(ids) == 3 && strings.Join(ids, "\x00") != strings.Join(want, "\x00") && strings.Trim(t, "- ") != "" && strings.Trim(t2, "- ") != "" {
-							s.Violate("ids-differ-from-model:long-heading", cfg.String(), []byte(doc), nil, fmt.Sprintf("L=%d ids %q, reference model %q", l, ids, want), strings.Join(want, " "), strings.Join(ids, " "))
+							c15ModelMismatch(s, cfg, []byte(doc), ids, want, ":long-heading")
 						}
 					}
 					s.Distinct(core.Hash([]byte(units[ui])))
